@@ -658,7 +658,7 @@ impl<W, R, T> CompilationScope<'_, W, R, T> {
                 {
                     return Ok(XStaticExpr::LiteralInt(whole));
                 }
-                if let Ok(float) = to_parse.parse::<f64>() {
+                if let Some(float) = to_parse.parse::<f64>().ok().filter(|f| f.is_finite()) {
                     return Ok(XStaticExpr::LiteralFloat(float));
                 }
                 return Err(CompilationError::InvalidNumberLiteral {
